@@ -37,6 +37,7 @@ type step struct {
 	Name  string `json:"name,omitempty"`
 	Fn    string `json:"fn,omitempty"`
 	Arg   int    `json:"arg,omitempty"`
+	Val   int    `json:"val,omitempty"`
 	Src   string `json:"src,omitempty"` // move: "func" (K=which), "slot" (K=table, Slot), "glob", "null"
 	K     int    `json:"k,omitempty"`
 	Slot  int    `json:"slot,omitempty"`
@@ -70,6 +71,14 @@ func (s step) String() string {
 			dst = fmt.Sprintf("table%d[%d]", s.DTbl, s.DSlot)
 		}
 		return fmt.Sprintf("move i%d.%s -> i%d.%s", s.Inst, src, s.To, dst)
+	case "mem":
+		switch memFns[s.Fn] {
+		case 0:
+			return fmt.Sprintf("i%d.%s()", s.Inst, s.Fn)
+		case 1:
+			return fmt.Sprintf("i%d.%s(%d)", s.Inst, s.Fn, s.Arg)
+		}
+		return fmt.Sprintf("i%d.%s(%d, %d)", s.Inst, s.Fn, s.Arg, s.Val)
 	case "long":
 		return fmt.Sprintf("start i%d.long(%d)", s.Inst, s.Arg)
 	case "resume":
